@@ -232,11 +232,19 @@ func c05NewTransport(netw string, q0 int, maxConc int, dial func(ctx context.Con
 	return transport.VerifNewPipelineTransportPreset(opts, q0)
 }
 
+// c05Timeouts counts expired waits in this process. A correct implementation never lets one expire
+// (every wait is for something that must happen); a broken one (lost replies) would make a whole run crawl,
+// so after a few expirations the remaining waits are cut short.
+var c05Timeouts atomic.Int32
+
 func c05WaitChan(ch <-chan struct{}, d time.Duration) bool {
 	select {
 	case <-ch:
 		return true
 	default:
+	}
+	if c05Timeouts.Load() >= 6 && d > 150*time.Millisecond {
+		d = 150 * time.Millisecond
 	}
 	tm := time.NewTimer(d)
 	defer tm.Stop()
@@ -244,6 +252,7 @@ func c05WaitChan(ch <-chan struct{}, d time.Duration) bool {
 	case <-ch:
 		return true
 	case <-tm.C:
+		c05Timeouts.Add(1)
 		return false
 	}
 }
@@ -772,6 +781,7 @@ func c05RunEol(parts []string) string {
 	}()
 
 	ok, bad, errs := 0, 0, 0
+	t0 := time.Now()
 	for i := 0; i < n; i++ {
 		cid := uint16((i*7 + 3) % 65536)
 		q := hx.BuildQuery(cid, c05Name(i), 1, 1, true)
@@ -780,6 +790,11 @@ func c05RunEol(parts []string) string {
 		cancel()
 		if err != nil || resp == nil {
 			errs++
+			if errs >= 8 && time.Since(t0) > 20*time.Second {
+				// a broken implementation times out on every exchange: give up, count the rest as errors
+				errs += n - i - 1
+				break
+			}
 			continue
 		}
 		hid, mark, has := c05MsgInfo(resp)
